@@ -168,6 +168,8 @@ static void prop(Ctx &c) {
         gen::ZFileOpts o; o.max_chunks = 12; o.max_chunk = 300; o.allow_empty = false; o.allow_uncomp = false;
         gen::ZFile b = gen::zfile(c, o); Bytes T = b.file; size_t n = b.nchunks();
         for (size_t i = 0; i < n; i++) if (b.clen(i) && c.boolean()) std::fill(T.begin() + b.off(i), T.begin() + b.off(i) + b.clen(i), 0x5a);
+        // a detached header as the target (header + dictionary chunk, identifier ZHR1): the scan looks at the dictionary only, every other chunk stays missing
+        bool detached = c.gver >= 4 && c.rarely(4); if (detached) { T.resize(b.h.total_size + b.clen(0)); memcpy(T.data(), "\0ZHR1", 5); }
         int fd = lib::mkfd(T); zckCtx *z = zck_create(); if (!zck_init_read(z, fd)) { zck_free(&z); close(fd); c.fail("open", "target does not open"); }
         bool keep_failed = c.gver >= 4 && c.boolean();
         (void)!zck_find_valid_chunks(z); if (!keep_failed) zck_reset_failed_chunks(z);
@@ -175,9 +177,9 @@ static void prop(Ctx &c) {
         Tab t; t.total = b.h.total_size; std::vector<int> v; size_t i = 0;
         for (zckChunk *ch = zck_get_first_chunk(z); ch; ch = zck_get_next_chunk(ch), i++) { t.start.push_back(b.off(i)); t.len.push_back(b.clen(i)); v.push_back(zck_get_chunk_valid(ch)); }
         int lim = LIMITS[c.pick(8)]; bool ntv = false; std::string vs; for (int x : v) vs += x == 1 ? "+" : x == 0 ? "0" : "-";
-        c.desc << "public-API marking " << vs << " limit " << lim << " on {" << b.desc << "}";
+        c.desc << "public-API marking " << vs << " limit " << lim << " on {" << b.desc << "}" << (detached ? " as a detached header" : "");
         std::string e = evaluate3(z, t, v, lim, &sig, &ntv); zck_free(&z); close(fd);
-        c.label(keep_failed ? "public-api-marking-with-failed-chunks" : "public-api-marking"); if (ntv) c.nontrivial();
+        c.label(keep_failed ? "public-api-marking-with-failed-chunks" : "public-api-marking"); if (detached) c.label("detached-header-target"); if (ntv) c.nontrivial();
         if (!e.empty()) c.fail(sig, e);
         return;
     }
